@@ -170,6 +170,7 @@ type FnCtx struct {
 	assertAct map[int]string // assumption index -> name of the invariant/lemma/precondition it belongs to
 	atFns     map[string]string
 	virt      map[*ssa.Alloc][]*Val
+	exitBound map[*clause]*boundClause
 	virtAddr  map[*ssa.IndexAddr]virtCell
 }
 
@@ -230,6 +231,7 @@ func (c *FnCtx) reset() {
 	c.assertAct = nil
 	c.atFns = nil
 	c.virt = nil
+	c.exitBound = nil
 	c.virtAddr = map[*ssa.IndexAddr]virtCell{}
 }
 
@@ -1045,6 +1047,50 @@ func (c *FnCtx) addrLocalOnly(v ssa.Value, depth int) bool {
 				return false
 			}
 		case *ssa.DebugRef:
+		case *ssa.MakeClosure:
+			// captured by a closure that only READS the variable: still a local cell
+			fnc, ok := x.Fn.(*ssa.Function)
+			if !ok {
+				return false
+			}
+			for k, b := range x.Bindings {
+				if b == v {
+					if k >= len(fnc.FreeVars) || !freeVarReadOnly(fnc.FreeVars[k], 0) {
+						return false
+					}
+				}
+			}
+		default:
+			return false
+		}
+	}
+	return true
+}
+
+// freeVarReadOnly: the closure (and closures it creates) only loads from the captured variable.
+func freeVarReadOnly(fv *ssa.FreeVar, depth int) bool {
+	if depth > 4 || fv.Referrers() == nil {
+		return false
+	}
+	for _, r := range *fv.Referrers() {
+		switch x := r.(type) {
+		case *ssa.UnOp:
+			if x.Op != token.MUL {
+				return false
+			}
+		case *ssa.DebugRef:
+		case *ssa.MakeClosure:
+			fnc, ok := x.Fn.(*ssa.Function)
+			if !ok {
+				return false
+			}
+			for k, b := range x.Bindings {
+				if b == ssa.Value(fv) {
+					if k >= len(fnc.FreeVars) || !freeVarReadOnly(fnc.FreeVars[k], depth+1) {
+						return false
+					}
+				}
+			}
 		default:
 			return false
 		}
@@ -1130,6 +1176,16 @@ func (c *FnCtx) execAll() {
 		}
 		c.execBlock(st, b)
 		out[b] = st
+		// edges leaving a loop: `loop L exit` assertions
+		if !c.dry {
+			for i, s := range b.Succs {
+				for _, lx := range c.loopOrd {
+					if lx.blocks[b] && !lx.blocks[s] {
+						c.loopExit(lx, st, and(st.pc, c.edgeCond(b, i)), b)
+					}
+				}
+			}
+		}
 		// back edges out of b
 		for i, s := range b.Succs {
 			if s.Dominates(b) {
